@@ -205,7 +205,7 @@ def move_staticmethod_static_scope(source: str, preserve: Collection[str]) -> st
                 ],
                 type_params=[],
                 returns=funcdef.returns,
-                lineno=classdef.lineno - 1,
+                lineno=min(node.lineno for node in (classdef, *classdef.decorator_list)),
                 col_offset=classdef.col_offset,
             )
             yield funcdef, None, transaction
